@@ -220,8 +220,11 @@ where
         };
         self.start_tree.push(start_node);
 
-        let mut rng = rand::rng();
-        let goal_state = pd.goal.sample_goal(&mut rng).unwrap();
+        // Draw the goal tree's root from the planner's own (seeded) generator when it has one.
+        let goal_state = match self.rng.as_mut() {
+            Some(rng) => pd.goal.sample_goal(&mut **rng).unwrap(),
+            None => pd.goal.sample_goal(&mut rand::rng()).unwrap(),
+        };
         let goal_node = Node {
             state: goal_state,
             parent_index: None,
